@@ -676,3 +676,146 @@ M('c04-find-hoisted-get-reversed-walk', 'C04', 'R2', 'falcon/app.py',
         for exc in reversed(type(ex).__mro__[:-1]):
             handler = get_handler(exc)
 """)
+
+# ---- second preserving wave (k2-*): "refactoring + break" - the behaviour-preserving shape the rules now look through
+# (helper extracted, list of pieces, constant tuple, local alias, additive keyword-only parameter) PLUS the original mistake
+M2('c04-k2-offers-helper-xml-predefined-first', 'C04', 'R4', [
+    {'file': 'falcon/app_helpers.py',
+     'old': "    predefined = (\n        [MEDIA_JSON, 'text/xml', MEDIA_XML]\n        if options.xml_error_serialization\n        else [MEDIA_JSON]\n    )\n    media_handlers = [mt for mt in options.media_handlers if mt not in predefined]\n    # NOTE(caselit,vytas): Add the registered handlers after the predefined\n    #   ones. This ensures that in the case of an equal match, the first one\n    #   (JSON) is selected and that the q parameter is taken into consideration\n    #   when selecting the media handler.\n    preferred = req.client_prefers(predefined + media_handlers)\n",
+     'new': '    media_types = _error_media_types(options)\n    preferred = req.client_prefers(media_types)\n'},
+    {'file': 'falcon/app_helpers.py',
+     'old': 'def default_serialize_error(req: Request, resp: Response, exception: HTTPError) -> None:\n',
+     'new': "def _error_media_types(options):\n    predefined = (\n        [MEDIA_XML, 'text/xml', MEDIA_JSON]\n        if options.xml_error_serialization\n        else [MEDIA_JSON]\n    )\n    media_handlers = [mt for mt in options.media_handlers if mt not in predefined]\n    return predefined + media_handlers\n\n\ndef default_serialize_error(req: Request, resp: Response, exception: HTTPError) -> None:\n"},
+])
+M2('c04-k2-offers-helper-handlers-first', 'C04', 'R4', [
+    {'file': 'falcon/app_helpers.py',
+     'old': "    predefined = (\n        [MEDIA_JSON, 'text/xml', MEDIA_XML]\n        if options.xml_error_serialization\n        else [MEDIA_JSON]\n    )\n    media_handlers = [mt for mt in options.media_handlers if mt not in predefined]\n    # NOTE(caselit,vytas): Add the registered handlers after the predefined\n    #   ones. This ensures that in the case of an equal match, the first one\n    #   (JSON) is selected and that the q parameter is taken into consideration\n    #   when selecting the media handler.\n    preferred = req.client_prefers(predefined + media_handlers)\n",
+     'new': '    media_types = _error_media_types(options)\n    preferred = req.client_prefers(media_types)\n'},
+    {'file': 'falcon/app_helpers.py',
+     'old': 'def default_serialize_error(req: Request, resp: Response, exception: HTTPError) -> None:\n',
+     'new': "def _error_media_types(options):\n    predefined = (\n        [MEDIA_JSON, 'text/xml', MEDIA_XML]\n        if options.xml_error_serialization\n        else [MEDIA_JSON]\n    )\n    media_handlers = [mt for mt in options.media_handlers if mt not in predefined]\n    return media_handlers + predefined\n\n\ndef default_serialize_error(req: Request, resp: Response, exception: HTTPError) -> None:\n"},
+])
+M2('c04-k2-offers-constant-tuple-xml-first', 'C04', 'R4', [
+    {'file': 'falcon/app_helpers.py',
+     'old': "    predefined = (\n        [MEDIA_JSON, 'text/xml', MEDIA_XML]\n        if options.xml_error_serialization\n        else [MEDIA_JSON]\n    )\n    media_handlers = [mt for mt in options.media_handlers if mt not in predefined]\n    # NOTE(caselit,vytas): Add the registered handlers after the predefined\n    #   ones. This ensures that in the case of an equal match, the first one\n    #   (JSON) is selected and that the q parameter is taken into consideration\n    #   when selecting the media handler.\n    preferred = req.client_prefers(predefined + media_handlers)\n",
+     'new': '    predefined = (\n        _ERROR_MEDIA_TYPES_WITH_XML\n        if options.xml_error_serialization\n        else _ERROR_MEDIA_TYPES\n    )\n    media_handlers = [mt for mt in options.media_handlers if mt not in predefined]\n    # NOTE(caselit,vytas): Add the registered handlers after the predefined\n    #   ones. This ensures that in the case of an equal match, the first one\n    #   (JSON) is selected and that the q parameter is taken into consideration\n    #   when selecting the media handler.\n    preferred = req.client_prefers([*predefined, *media_handlers])\n'},
+    {'file': 'falcon/app_helpers.py',
+     'old': 'def default_serialize_error(req: Request, resp: Response, exception: HTTPError) -> None:\n',
+     'new': "_ERROR_MEDIA_TYPES = (MEDIA_JSON,)\n_ERROR_MEDIA_TYPES_WITH_XML = (MEDIA_XML, 'text/xml', MEDIA_JSON)\n\n\ndef default_serialize_error(req: Request, resp: Response, exception: HTTPError) -> None:\n"},
+])
+M2('c04-k2-offers-starred-display-handlers-first', 'C04', 'R4', [
+    {'file': 'falcon/app_helpers.py',
+     'old': "    predefined = (\n        [MEDIA_JSON, 'text/xml', MEDIA_XML]\n        if options.xml_error_serialization\n        else [MEDIA_JSON]\n    )\n    media_handlers = [mt for mt in options.media_handlers if mt not in predefined]\n    # NOTE(caselit,vytas): Add the registered handlers after the predefined\n    #   ones. This ensures that in the case of an equal match, the first one\n    #   (JSON) is selected and that the q parameter is taken into consideration\n    #   when selecting the media handler.\n    preferred = req.client_prefers(predefined + media_handlers)\n",
+     'new': '    predefined = (\n        _ERROR_MEDIA_TYPES_WITH_XML\n        if options.xml_error_serialization\n        else _ERROR_MEDIA_TYPES\n    )\n    media_handlers = [mt for mt in options.media_handlers if mt not in predefined]\n    # NOTE(caselit,vytas): Add the registered handlers after the predefined\n    #   ones. This ensures that in the case of an equal match, the first one\n    #   (JSON) is selected and that the q parameter is taken into consideration\n    #   when selecting the media handler.\n    preferred = req.client_prefers([*media_handlers, *predefined])\n'},
+    {'file': 'falcon/app_helpers.py',
+     'old': 'def default_serialize_error(req: Request, resp: Response, exception: HTTPError) -> None:\n',
+     'new': "_ERROR_MEDIA_TYPES = (MEDIA_JSON,)\n_ERROR_MEDIA_TYPES_WITH_XML = (MEDIA_JSON, 'text/xml', MEDIA_XML)\n\n\ndef default_serialize_error(req: Request, resp: Response, exception: HTTPError) -> None:\n"},
+])
+M2('c04-k2-negotiation-helper-swaps-the-offers', 'C04', 'R4', [
+    {'file': 'falcon/app_helpers.py',
+     'old': '    preferred = req.client_prefers(predefined + media_handlers)\n',
+     'new': '    preferred = _negotiate(req, predefined, media_handlers)\n'},
+    {'file': 'falcon/app_helpers.py',
+     'old': 'def default_serialize_error(req: Request, resp: Response, exception: HTTPError) -> None:\n',
+     'new': 'def _negotiate(req, first, second):\n    return req.client_prefers(second + first)\n\n\ndef default_serialize_error(req: Request, resp: Response, exception: HTTPError) -> None:\n'},
+])
+M2('c04-k2-append-header-delimiter-skips-substring-duplicate', 'C04', 'R4', [
+    {'file': 'falcon/response.py',
+     'old': '    def append_header(self, name: str, value: str) -> None:\n',
+     'new': "    def append_header(self, name: str, value: str, *, delimiter: str = ', ') -> None:\n"},
+    {'file': 'falcon/response.py',
+     'old': "            if name in self._headers:\n                value = self._headers[name] + ', ' + value\n\n            self._headers[name] = value\n",
+     'new': '            if name in self._headers:\n                current = self._headers[name]\n\n                if value in current:\n                    return\n\n                value = current + delimiter + value\n\n            self._headers[name] = value\n'},
+])
+M2('c04-k2-append-header-delimiter-default-is-a-blank', 'C04', 'R4', [
+    {'file': 'falcon/response.py',
+     'old': '    def append_header(self, name: str, value: str) -> None:\n',
+     'new': "    def append_header(self, name: str, value: str, *, delimiter: str = ' ') -> None:\n"},
+    {'file': 'falcon/response.py',
+     'old': "                value = self._headers[name] + ', ' + value\n",
+     'new': '                value = self._headers[name] + delimiter + value\n'},
+], also=('C15',))
+M2('c04-k2-serializer-vary-parameter-default-not-accept', 'C04', 'R4', [
+    {'file': 'falcon/app_helpers.py',
+     'old': 'def default_serialize_error(req: Request, resp: Response, exception: HTTPError) -> None:\n',
+     'new': "def default_serialize_error(req: Request, resp: Response, exception: HTTPError, *, _vary: str = 'Accept-Encoding') -> None:\n"},
+    {'file': 'falcon/app_helpers.py',
+     'old': "    resp.append_header('Vary', 'Accept')\n",
+     'new': "    resp.append_header('Vary', _vary)\n"},
+])
+M2('c04-k2-compose-helper-forgets-the-headers', 'C04', 'R4', [
+    {'file': 'falcon/app.py',
+     'old': '        resp.status = error.status\n\n        if error.headers is not None:\n            resp.set_headers(error.headers)\n\n        self._serialize_error(req, resp, error)\n',
+     'new': '        self._copy_status_and_headers(resp, error)\n\n        self._serialize_error(req, resp, error)\n\n    def _copy_status_and_headers(self, resp, source):\n        resp.status = source.status\n'},
+])
+M2('c04-k2-compose-helper-called-after-the-serializer', 'C04', 'R4', [
+    {'file': 'falcon/app.py',
+     'old': '        resp.status = error.status\n\n        if error.headers is not None:\n            resp.set_headers(error.headers)\n\n        self._serialize_error(req, resp, error)\n',
+     'new': '        self._serialize_error(req, resp, error)\n        self._copy_status_and_headers(resp, error)\n\n    def _copy_status_and_headers(self, resp, source):\n        resp.status = source.status\n\n        if source.headers is not None:\n            resp.set_headers(source.headers)\n'},
+])
+M2('c04-k2-compose-locals-headers-of-the-response', 'C04', 'R4', [
+    {'file': 'falcon/app.py',
+     'old': '        resp.status = error.status\n\n        if error.headers is not None:\n            resp.set_headers(error.headers)\n\n        self._serialize_error(req, resp, error)\n',
+     'new': '        status = error.status\n        resp.status = status\n\n        headers = resp.headers\n        if headers is not None:\n            resp.set_headers(headers)\n\n        serialize = self._serialize_error\n        serialize(req, resp, error)\n'},
+])
+M2('c04-k2-reset-helper-forgets-media', 'C04', 'R3', [
+    {'file': 'falcon/app.py',
+     'old': '        resp.text = resp.data = resp.media = None\n        if err_handler is not None:\n',
+     'new': '        _reset_body(resp)\n        if err_handler is not None:\n'},
+    {'file': 'falcon/app.py',
+     'old': 'class App:\n',
+     'new': 'def _reset_body(resp):\n    resp.text = resp.data = None\n\n\nclass App:\n'},
+])
+M2('c04-k2-reset-helper-called-after-the-handler', 'C04', 'R3', [
+    {'file': 'falcon/app.py',
+     'old': '        resp.text = resp.data = resp.media = None\n        if err_handler is not None:\n',
+     'new': '        if err_handler is not None:\n'},
+    {'file': 'falcon/app.py',
+     'old': '                err_handler(req, resp, ex, params)\n            except HTTPStatus as status:\n                self._compose_status_response(req, resp, status)\n',
+     'new': '                err_handler(req, resp, ex, params)\n                _reset_body(resp)\n            except HTTPStatus as status:\n                self._compose_status_response(req, resp, status)\n'},
+    {'file': 'falcon/app.py',
+     'old': 'class App:\n',
+     'new': 'def _reset_body(resp):\n    resp.text = resp.data = resp.media = None\n\n\nclass App:\n'},
+])
+M2('c04-k2-python-handler-compose-alias-400', 'C04', 'R5', [
+    {'file': 'falcon/app.py',
+     'old': '        req.log_error(traceback.format_exc())\n        self._compose_error_response(req, resp, HTTPInternalServerError())\n',
+     'new': '        req.log_error(traceback.format_exc())\n        compose = self._compose_error_response\n        compose(req, resp, HTTPBadRequest())\n'},
+])
+M2('c04-k2-to-dict-description-local-by-truthiness', 'C04', 'R4', [
+    {'file': 'falcon/http_error.py',
+     'old': "        if self.description is not None:\n            obj['description'] = self.description\n",
+     'new': "        description = self.description\n        if description:\n            obj['description'] = description\n"},
+])
+M2('c04-k2-registry-alias-setdefault', 'C04', 'R2', [
+    {'file': 'falcon/app.py',
+     'old': '        for exc in exception_tuple:\n            if not issubclass(exc, BaseException):\n                raise TypeError(\'"exception" must be an exception type.\')\n\n            self._error_handlers[exc] = handler\n',
+     'new': '        handlers = self._error_handlers\n        for exc in exception_tuple:\n            if not issubclass(exc, BaseException):\n                raise TypeError(\'"exception" must be an exception type.\')\n\n            handlers.setdefault(exc, handler)\n'},
+])
+M2('c04-k2-default-handlers-helper-forgets-httpstatus', 'C04', 'R2', [
+    {'file': 'falcon/app.py',
+     'old': '        self.add_error_handler(Exception, self._python_error_handler)\n        self.add_error_handler(HTTPError, self._http_error_handler)\n        self.add_error_handler(HTTPStatus, self._http_status_handler)\n',
+     'new': '        self._add_default_error_handlers()\n'},
+    {'file': 'falcon/app.py',
+     'old': '    def set_error_serializer(self, serializer: ErrorSerializer) -> None:',
+     'new': '    def _add_default_error_handlers(self) -> None:\n        self.add_error_handler(Exception, self._python_error_handler)\n        self.add_error_handler(HTTPError, self._http_error_handler)\n\n    def set_error_serializer(self, serializer: ErrorSerializer) -> None:'},
+])
+M2('c04-k2-to-json-serialize-alias-filtered-dict', 'C04', 'R4', [
+    {'file': 'falcon/http_error.py',
+     'old': '        obj = self.to_dict()\n        if handler is None:\n            handler = _DEFAULT_JSON_HANDLER\n        # NOTE: the json handler requires the sync serialize interface\n        return handler.serialize(obj, MEDIA_JSON)\n',
+     'new': '        if handler is None:\n            handler = _DEFAULT_JSON_HANDLER\n        serialize = handler.serialize\n        # NOTE: the json handler requires the sync serialize interface\n        return serialize({k: v for k, v in self.to_dict().items() if v}, MEDIA_JSON)\n'},
+])
+M('c04-k2-ctor-tuple-assignment-drops-code', 'C04', 'R4', 'falcon/http_error.py',
+  "        self.headers = headers\n        self.code = code\n", "        self.headers, self.code = headers, None\n")
+M2('c04-k2-xml-subelement-alias-code-by-truthiness', 'C04', 'R4', [
+    {'file': 'falcon/http_error.py',
+     'old': "        et.SubElement(error_element, 'title').text = self.title\n",
+     'new': "        sub = et.SubElement\n        sub(error_element, 'title').text = self.title\n"},
+    {'file': 'falcon/http_error.py',
+     'old': "        if self.code is not None:\n            et.SubElement(error_element, 'code').text = str(self.code)\n",
+     'new': "        if self.code:\n            sub(error_element, 'code').text = str(self.code)\n"}])
+M('c04-k2-to-dict-alias-code-from-title', 'C04', 'R4', 'falcon/http_error.py',
+  "        obj = obj_type()\n\n        obj['title'] = self.title\n\n        if self.description is not None:\n            obj['description'] = self.description\n\n        if self.code is not None:\n            obj['code'] = self.code\n",
+  "        obj = obj_type()\n        doc = obj\n\n        doc['title'] = self.title\n\n        if self.description is not None:\n            doc['description'] = self.description\n\n        if self.code is not None:\n            doc['code'] = self.title\n")
+M('c04-k2-error-status-local-2xx', 'C04', 'R4', 'falcon/errors.py',
+  "        super().__init__(\n            status.HTTP_410,\n", "        gone = status.HTTP_203\n        super().__init__(\n            gone,\n")
